@@ -5,6 +5,8 @@ package layout
 import (
 	pr "github.com/benoitkugler/webrender/css/properties"
 	bo "github.com/benoitkugler/webrender/html/boxes"
+	"github.com/benoitkugler/webrender/html/tree"
+	"github.com/benoitkugler/webrender/utils"
 	"github.com/benoitkugler/webrender/vx"
 )
 
@@ -135,4 +137,74 @@ func VxH_C10_percent() {
 		vx.Assert("min-width-box-sizing", vx.ApproxEq(float64(f.MinWidth.V()), shrink(want)))
 		vx.Assert("min-width-not-negative", f.MinWidth.V() >= 0)
 	}
+}
+
+// used height with min-height / max-height / height under every box-sizing: the border box (or
+// padding / content box) named by box-sizing obeys the constraints, vertical paddings and
+// borders are taken off the vertical axis only, and the next sibling starts right below.
+func VxH_C10_box_sizing_height() {
+	doc, err := tree.NewHTML(utils.InputString("<html><body><section></section><aside></aside></body></html>"), "", nil, "")
+	if err != nil {
+		panic(err)
+	}
+	rng := func(id string, lo, hi pr.Float) pr.Float {
+		v := pr.Float(vx.F32(id))
+		vx.Assume(vx.And(v >= lo, v <= hi))
+		return v
+	}
+	pv, ph := rng("padding-vertical", 0, 20), rng("padding-horizontal", 0, 40)
+	bv, bh := rng("border-vertical", 0, 10), rng("border-horizontal", 0, 10)
+	sizing := []pr.String{"content-box", "padding-box", "border-box"}[vx.Choose("box-sizing", 3)]
+	which := vx.Choose("constraint", 3) // 0: height, 1: min-height (over an auto height), 2: max-height under a height
+	val := rng("value", 0, 150)
+	D := func(p pr.KnownProp, v pr.DeclaredValue) tree.VxDecl { return tree.VxDecl{Prop: p, Value: v} }
+	decls := []tree.VxDecl{
+		D(pr.PDisplay, pr.Display{"block", "flow"}), D(pr.PBoxSizing, sizing), D(pr.PWidth, vxPxV(200)),
+		D(pr.PPaddingTop, vxPxV(pv)), D(pr.PPaddingBottom, vxPxV(pv)), D(pr.PPaddingLeft, vxPxV(ph)), D(pr.PPaddingRight, vxPxV(ph)),
+		D(pr.PBorderTopWidth, vxPxV(bv)), D(pr.PBorderBottomWidth, vxPxV(bv)), D(pr.PBorderLeftWidth, vxPxV(bh)), D(pr.PBorderRightWidth, vxPxV(bh)),
+		D(pr.PBorderTopStyle, pr.String("solid")), D(pr.PBorderBottomStyle, pr.String("solid")), D(pr.PBorderLeftStyle, pr.String("solid")), D(pr.PBorderRightStyle, pr.String("solid")),
+	}
+	switch which {
+	case 0:
+		decls = append(decls, D(pr.PHeight, vxPxV(val)))
+	case 1:
+		decls = append(decls, D(pr.PMinHeight, vxPxV(val)))
+	default:
+		decls = append(decls, D(pr.PHeight, vxPxV(300)), D(pr.PMaxHeight, vxPxV(val)))
+	}
+	sheet := tree.VxSheet(
+		tree.VxRule{Tag: "body", Decls: []tree.VxDecl{D(pr.PMarginTop, vxPxV(0)), D(pr.PPaddingTop, vxPxV(1))}},
+		tree.VxRule{Tag: "section", Decls: decls},
+		tree.VxRule{Tag: "aside", Decls: []tree.VxDecl{D(pr.PDisplay, pr.Display{"block", "flow"}), D(pr.PHeight, vxPxV(10))}},
+	)
+	pages := Layout(doc, []tree.CSS{sheet}, false, nil)
+	vx.Reach("laid-out")
+	S, N := vxFind(pages[0], "section"), vxFind(pages[0], "aside")
+	vx.Assert("boxes-exist", S != nil && N != nil)
+	eq := func(a, b pr.Float) bool { return vx.ApproxEq(float64(a), float64(b)) }
+	// the box named by box-sizing
+	var sized pr.Float
+	switch sizing {
+	case "content-box":
+		sized = S.Height.V()
+	case "padding-box":
+		sized = S.Height.V() + 2*pv
+	default:
+		sized = S.BorderHeight()
+	}
+	// what the constraint asks of that box; it cannot make the content height negative
+	floor := pr.Float(0)
+	switch sizing {
+	case "padding-box":
+		floor = 2 * pv
+	case "border-box":
+		floor = 2*pv + 2*bv
+	}
+	want := val
+	if float64(want) < float64(floor) {
+		want = floor
+	}
+	vx.Assert("sized-box-has-the-constrained-height", eq(sized, want))
+	vx.Assert("border-box-is-content-plus-vertical-decorations", eq(S.BorderHeight(), S.Height.V()+2*pv+2*bv))
+	vx.Assert("next-sibling-right-below", eq(N.BorderBoxY(), S.BorderBoxY()+S.BorderHeight()))
 }
